@@ -74,7 +74,7 @@ def rand_probs(rng, n, stats=None):
 
 
 def rand_theta(rng, m):
-    kind = rng.choice(["unif", "unif", "edge", "edge", "dyadic", "half"])
+    kind = rng.choice(["unif", "unif", "edge", "edge", "dyadic", "half", "allsmall", "alllarge"])
     th = []
     for _ in range(m):
         if kind == "unif":
@@ -87,6 +87,12 @@ def rand_theta(rng, m):
                 th.append(1.0 - 10 ** rng.uniform(-12, -9))
             else:
                 th.append(rng.uniform(0.001, 0.999))
+        elif kind == "allsmall":
+            # every coordinate next to 0 (>= 1e-9: the alpha products of the local-ratio coding stay
+            # below 1e9^32 = 1e288 up to dimension 33; see findings: C19-local-ratio-overflow)
+            th.append(10 ** rng.uniform(-9, -7))
+        elif kind == "alllarge":
+            th.append(1.0 - 10 ** rng.uniform(-12, -7))
         elif kind == "dyadic":
             th.append(rng.randint(1, 15) / 16.0)
         else:
@@ -197,7 +203,7 @@ def generate(seed, tier):
     thorough = tier == "thorough"
     # 1. every (method, allowNull, dim 0..17): construction from a vector and from the dimension,
     #    then a short history
-    reps = 6 if thorough else 2
+    reps = 20 if thorough else 3
     for m in (1, 2, 3):
         for a in (0, 1):
             for n in range(0, 18):
@@ -221,7 +227,7 @@ def generate(seed, tier):
                     ops = ["onewdim 0 %d %d %d" % (n, m, a)] + history(rng, "o", n, m, a, rng.randint(2, 5))
                     cases.append(["case odim m%d a%d n%d" % (m, a, n)] + ops)
     # 2. random cases, dimensions up to 33
-    nrand = 6000 if thorough else 700
+    nrand = 40000 if thorough else 2000
     for i in range(nrand):
         m = rng.choice([1, 2, 3])
         a = rng.randint(0, 1)
@@ -235,7 +241,7 @@ def generate(seed, tier):
         ops = [head] + history(rng, pre, n, m, a, rng.randint(2, 8))
         cases.append(["case rnd%d m%d a%d n%d" % (i, m, a, n)] + ops)
     # 3. malformed stream
-    nbad = 1500 if thorough else 250
+    nbad = 6000 if thorough else 400
     for i in range(nbad):
         m = rng.choice([1, 2, 3])
         a = rng.randint(0, 1)
@@ -252,7 +258,7 @@ def generate(seed, tier):
             ops += history(rng, "", n, m, a, 2)
         cases.append(["case bad%d m%d a%d n%d" % (i, m, a, n)] + ops)
     # 3b. rejected vectors on an OrderedSimplex (increasing values, wrong sum), then a look at the object
-    for i in range(600 if thorough else 120):
+    for i in range(3000 if thorough else 200):
         m = rng.choice([1, 2, 3])
         a = rng.randint(0, 1)
         n = rng.randint(2, 10)
